@@ -135,6 +135,15 @@ CHECKS = {
             'status, headers and body verbatim.',
             '204/304 are checked by the own recorder only (the validator also enforces an HTTP recommendation about Content-Type there)',
             'DESIGN.md §4 C13'),
+    'C18': ('exploration',
+            'Hypothesis-generated host applications with token-bearing resources; token search over raw / unescaped / JSON-decoded output plus visibility clauses read from both views',
+            'Generated hosts (secret-named and plain resources of 15 value kinds incl. failing repr, every endpoint kind, static '
+            'routes, embedded applications, middlewares incl. a signed-cookie middleware with a known key, meta mounted at '
+            'generated prefixes and up to two embedding levels deep) are asked for the HTML and the JSON view: both must be 200, '
+            'no secret token and not the signing key may occur anywhere (also after unescaping / decoding), secret names carry the '
+            'redaction marker and plain resources stay visible.',
+            'only lower-case "secret" in the name is claimed; with a failing repr only 200 + no-leak are asserted',
+            'DESIGN.md §4 C18'),
 }
 
 PENDING_REASON = 'check not built yet in this session (planned, see DESIGN.md §4); not claimed until it runs quietly on the unchanged tree'
